@@ -49,6 +49,10 @@ pub struct Scenario {
     pub sqpoll: bool,
     /// Submission queue entries.
     pub sq: u32,
+    /// Completion queue entries (None: twice the submission queue).
+    pub cq: Option<u32>,
+    /// Before anything is dropped a further descriptor was closed with `AsyncFd::close()`.
+    pub closed_fd: bool,
 }
 
 #[derive(Clone, Copy, Debug, PartialEq, Eq, Hash)]
@@ -141,6 +145,9 @@ impl C12World {
         let need_pool = sc.pool || sc.buf_owned || sc.buf_fresh || sc.ops.iter().any(|(k, _)| k.needs_pool());
         talloc::track(|| {
             let mut c = Ring::config().with_submission_queue_size(sc.sq);
+            if let Some(cq) = sc.cq {
+                c = c.with_completion_queue_size(cq);
+            }
             if need_table {
                 c = c.with_direct_descriptors(4);
             }
@@ -175,6 +182,23 @@ impl C12World {
             assert!(matches!(op.poll(&mut cx), Seen::Ready(_)));
             self.direct = op.held.borrow_mut().pop();
             self.direct_origin = Some(s);
+            talloc::track(|| drop(op));
+        }
+        if sc.closed_fd {
+            // An explicit close, run to completion: afterwards nothing of that descriptor may be left.
+            let raw = simk::with(|k| k.new_regular_pub());
+            let extra = talloc::track(|| unsafe { AsyncFd::from_raw_fd(raw, self.sq.as_ref().unwrap().clone()) });
+            simk::with(|k| k.hold_user_close = true);
+            let mut op = ops::make_close(extra);
+            let w = HWaker::new(92);
+            let mut cx = Context::from_waker(&w.waker);
+            assert_eq!(op.poll(&mut cx), Seen::Pending);
+            self.enter();
+            let s = simk::with(|k| *k.inflight().last().unwrap());
+            simk::with(|k| k.complete(s, Out::Default));
+            self.enter();
+            assert!(matches!(op.poll(&mut cx), Seen::Ready(_)));
+            simk::with(|k| k.hold_user_close = false);
             talloc::track(|| drop(op));
         }
         if sc.buf_owned {
@@ -523,7 +547,7 @@ pub fn scenarios(quick: bool) -> Vec<Scenario> {
     use Kind::*;
     use OpState::*;
     let mut v = Vec::new();
-    let base = Scenario { ops: vec![], sq_clone: false, direct_fd: false, pool: false, buf_owned: false, buf_fresh: false, sync_cancel: SyncCancelMode::All, sqpoll: false, sq: 8 };
+    let base = Scenario { ops: vec![], sq_clone: false, direct_fd: false, pool: false, buf_owned: false, buf_fresh: false, sync_cancel: SyncCancelMode::All, sqpoll: false, sq: 8, cq: None, closed_fd: false };
     // One operation in every state, with and without the other object kinds.
     let single: Vec<(Kind, OpState)> = vec![
         (ReadVec, NotStarted),
@@ -565,6 +589,17 @@ pub fn scenarios(quick: bool) -> Vec<Scenario> {
             if !quick {
                 v.push(Scenario { ops: vec![*op], sq, sq_clone: true, ..base.clone() });
             }
+        }
+    }
+    // A descriptor closed explicitly before the teardown.
+    v.push(Scenario { closed_fd: true, ..base.clone() });
+    v.push(Scenario { ops: vec![(ReadVec, InFlight)], closed_fd: true, sq_clone: true, ..base.clone() });
+    // A completion queue so small that what the final cancellation produces overflows it.
+    for ops in [vec![(ReadVec, InFlight), (WriteVec, InFlight), (RecvFrom, InFlight)], vec![(ReadVec, InFlight), (SendZc, InFlight)], vec![(ReadVec, AbandonedCancelLost), (WriteVec, InFlight), (MultishotRead, MidStream)]] {
+        v.push(Scenario { ops: ops.clone(), sq: 2, cq: Some(2), ..base.clone() });
+        if !quick {
+            v.push(Scenario { ops: ops.clone(), sq: 1, cq: Some(2), ..base.clone() });
+            v.push(Scenario { ops, sq: 2, cq: Some(2), direct_fd: true, ..base.clone() });
         }
     }
     // Pool objects.
